@@ -980,7 +980,7 @@ fn step_stave_orphan_data() {
 //@ harness: c01_template_hbf props=C01 tier=quick class=functional covers=1 mem=12 timeout=1500 est=120
 //@ bounds: check all its, one HBF = packet 1 (stop 0, page 0): IHW, TDH (internal trigger), 2 inner data words, TDT packet_done, TDH (later bc), data word, TDT packet_done, no-data TDH; packet 2 (stop 1, page 1): DDW0. Symbolic: 3 x 9 lane data bytes (hit content), the 56 TDT/DDW0 lane status bits, packet offsets (< 2^40), data format {0,2}: ZERO reports
 H!(c01_template_hbf, template_hbf(false));
-//@ harness: c01_template_hbf_rich props=C01 tier=thorough required=no class=functional covers=1 mem=28 timeout=2400 est=600
+//@ harness: c01_template_hbf_rich props=C01 tier=thorough required=no class=functional covers=1 mem=28 timeout=900 est=600
 //@ bounds: same frame with orbit, bunch crossings and trigger type symbolic as well (exhausts 16 GB: best effort)
 H!(c01_template_hbf_rich, template_hbf(true));
 fn template_hbf(rich: bool) {
